@@ -73,6 +73,123 @@ def verbAuthSeq (fields : List Sexp) : String :=
     pure (" ".intercalate (outs.filterMap encAuthOut))
   r.getD "bad-case"
 
+def bytesField (name : String) (fields : List Sexp) : Option Bytes :=
+  match field name fields with
+  | some [.atom h] => decodeHex h
+  | _ => none
+
+/-- WIRE: (case (bytes xHEX)) — decode with the independent decoder, resolve symbols,
+re-encode the blocks from the decoded content and the envelope from its fields. -/
+def verbWire (fields : List Sexp) : String :=
+  match bytesField "bytes" fields with
+  | none => "bad-case"
+  | some bs =>
+    match unmarshal bs with
+    | .error r => encReject r
+    | .ok p =>
+      match resolveBlocks [] p.blocks with
+      | none => "unresolvable"
+      | some contents =>
+        let e := p.envelope
+        let rk := match e.rootKeyId with | some n => toString n | none => "none"
+        let pr := match e.proof with | .nextSecret _ => "secret" | .finalSignature _ => "final" | .empty => "none"
+        let revs := ",".intercalate ((revocationIds e).map encodeHex)
+        let blocks := spaced (contents.map fun c =>
+          "(" ++ encBlockSx c.block ++ " (context " ++ encodeHex c.context ++ "))")
+        let reBlocks := (buildBlockMsgs [] contents).map Wire.encodeBlock
+        let reenc := if reBlocks == (e.authority :: e.blocks).map (·.block) then "same" else "differ"
+        let envre := if Wire.encodeBiscuit e == bs then "same" else "differ"
+        s!"ok rootkeyid={rk} proof={pr} revids={revs} blocks={blocks} reenc={reenc} envreenc={envre}"
+
+/-- Oracle queries the chain walk needs for envelope `e` under root key `root`. -/
+def chainQueries (root : Bytes) (e : Wire.BiscuitMsg) : List String :=
+  let sbs := e.authority :: e.blocks
+  let keys := root :: sbs.map (·.nextKey.key)
+  let links := (sbs.zip keys).map fun (sb, k) =>
+    "(verify " ++ encodeHex k ++ " " ++ encodeHex (blockPayload sb) ++ " " ++ encodeHex sb.signature ++ ")"
+  let lastKey := (sbs.getLast?.map (·.nextKey.key)).getD root
+  let proof := match e.proof with
+    | .nextSecret sk => if sk.length = 32 then ["(pub " ++ encodeHex sk ++ ")"] else []
+    | .finalSignature sig =>
+      ["(verify " ++ encodeHex lastKey ++ " " ++ encodeHex (sealPayload (lastBlock e)) ++ " " ++ encodeHex sig ++ ")"]
+    | .empty => []
+  links ++ proof
+
+structure OracleTbl where
+  verifies : List (Bytes × Bytes × Bytes × Bool)
+  pubs : List (Bytes × Bytes)
+
+def decOracle (fields : List Sexp) : OracleTbl :=
+  match field "oracle" fields with
+  | none => { verifies := [], pubs := [] }
+  | some entries =>
+    entries.foldl (fun t e =>
+      match e with
+      | .list [.atom "verify", .atom k, .atom m, .atom s, .atom r] =>
+        match decodeHex k, decodeHex m, decodeHex s with
+        | some k, some m, some s => { t with verifies := (k, m, s, r == "1") :: t.verifies }
+        | _, _, _ => t
+      | .list [.atom "pub", .atom sk, .atom pk] =>
+        match decodeHex sk, decodeHex pk with
+        | some sk, some pk => { t with pubs := (sk, pk) :: t.pubs }
+        | _, _ => t
+      | _ => t) { verifies := [], pubs := [] }
+
+def schemeOf (t : OracleTbl) : SigScheme :=
+  { pub := fun sk => match t.pubs.find? (fun e => e.1 == sk) with | some e => e.2 | none => []
+    sign := fun _ _ => []
+    verify := fun k m s => match t.verifies.find? (fun e => e.1 == k && e.2.1 == m && e.2.2.1 == s) with
+      | some e => e.2.2.2 | none => false }
+
+def decKeys (fields : List Sexp) : List (Nat × Bytes) :=
+  match field "keys" fields with
+  | none => []
+  | some entries => entries.filterMap fun
+    | .list [.atom i, .atom k] => do pure (← i.toNat?, ← decodeHex k)
+    | _ => none
+
+/-- Root key the model verifies under: explicit root, or selection by identifier. -/
+def chainRoot (fields : List Sexp) (e : Wire.BiscuitMsg) : Except Reject Bytes :=
+  match bytesField "root" fields with
+  | some r => if r.isEmpty then .error .noKey else .ok r
+  | none =>
+    let dflt := match field "default" fields with
+      | some [.atom h] => decodeHex h
+      | _ => none
+    selectKey e.rootKeyId (decKeys fields) dflt
+
+/-- CHAIN: (case (bytes xHEX) (root xKEY | keys … default …) (oracle …)) -/
+def verbChain (fields : List Sexp) : String :=
+  match bytesField "bytes" fields with
+  | none => "bad-case"
+  | some bs =>
+    match unmarshal bs with
+    | .error r => encReject r
+    | .ok p =>
+      match chainRoot fields p.envelope with
+      | .error r => encReject r
+      | .ok root =>
+        match verifyChain (schemeOf (decOracle fields)) root p.envelope with
+        | .error r => encReject r
+        | .ok () =>
+          let rk := match p.envelope.rootKeyId with | some n => toString n | none => "none"
+          "accept rootkeyid=" ++ rk ++ " revids=" ++ ",".intercalate ((revocationIds p.envelope).map encodeHex)
+
+/-- First pass: which external answers does the case need? -/
+def needOf (verb : String) (sx : Sexp) : Option String :=
+  match verb, sx with
+  | "CHAIN", .list (.atom "case" :: fields) =>
+    match bytesField "bytes" fields with
+    | none => none
+    | some bs =>
+      match unmarshal bs with
+      | .error _ => none
+      | .ok p =>
+        match chainRoot fields p.envelope with
+        | .error _ => none
+        | .ok root => some ("(oracle-queries " ++ spaced (chainQueries root p.envelope) ++ ")")
+  | _, _ => none
+
 def runVerb (verb : String) (sx : Sexp) : String :=
   match sx with
   | .list (.atom "case" :: fields) =>
@@ -81,6 +198,8 @@ def runVerb (verb : String) (sx : Sexp) : String :=
     | "RUN" => verbRun fields
     | "QUERY" => verbQuery fields
     | "AUTHSEQ" => verbAuthSeq fields
+    | "WIRE" => verbWire fields
+    | "CHAIN" => verbChain fields
     | _ => "bad-verb"
   | _ => "bad-case"
 
